@@ -28,8 +28,73 @@ use crate::{
     simio::{IoKind, IoOutcome, IoRec, SimIo, SimIoConfig, PAGE},
 };
 
-pub type HC = HybridCache<u64, Vec<u8>, VHash>;
-pub type HE = HybridCacheEntry<u64, Vec<u8>, VHash>;
+pub type HC = HybridCache<u64, HVal, VHash>;
+pub type HE = HybridCacheEntry<u64, HVal, VHash>;
+
+// ---------------------------------------------------------------------------------------------
+// Lock monitor for user callbacks of the hybrid cache (C16)
+// ---------------------------------------------------------------------------------------------
+
+static LOCK_PROBE: Mutex<Vec<String>> = Mutex::new(Vec::new());
+
+/// Called from every user callback the hybrid cache invokes (value destructor, event listener,
+/// weighter, admission filter): records the callback if the calling thread holds a lock of the facade.
+pub fn lock_probe(callback: &'static str) {
+    let held = parking_lot::held_by_this_thread();
+    if held > 0 {
+        if let Ok(mut v) = LOCK_PROBE.lock() {
+            if v.len() < 16 {
+                v.push(format!("{callback} invoked while the calling thread holds {held} cache lock(s)"));
+            }
+        }
+    }
+}
+
+pub fn lock_probe_take() -> Vec<String> {
+    LOCK_PROBE.lock().map(|mut v| std::mem::take(&mut *v)).unwrap_or_default()
+}
+
+/// The value type of the hybrid cache under test: the bytes of `mkval`, encoded exactly like
+/// `Vec<u8>`, with a destructor that probes the lock monitor.
+#[derive(Debug, Clone, PartialEq, Eq)]
+pub struct HVal(pub Vec<u8>);
+
+impl std::ops::Deref for HVal {
+    type Target = Vec<u8>;
+    fn deref(&self) -> &Vec<u8> {
+        &self.0
+    }
+}
+
+impl Drop for HVal {
+    fn drop(&mut self) {
+        lock_probe("ValueDrop");
+    }
+}
+
+impl foyer::Code for HVal {
+    fn encode(&self, writer: &mut impl std::io::Write) -> foyer::Result<()> {
+        self.0.encode(writer)
+    }
+
+    fn decode(reader: &mut impl std::io::Read) -> foyer::Result<Self> {
+        Vec::<u8>::decode(reader).map(HVal)
+    }
+
+    fn estimated_size(&self) -> usize {
+        self.0.estimated_size()
+    }
+}
+
+#[derive(Debug)]
+struct ProbeFilter;
+
+impl foyer::StorageFilterCondition for ProbeFilter {
+    fn filter(&self, _: &Arc<foyer::Statistics>, _: u64, _: usize) -> foyer::StorageFilterResult {
+        lock_probe("AdmissionFilter");
+        foyer::StorageFilterResult::Admit
+    }
+}
 
 // ---------------------------------------------------------------------------------------------
 // Values that identify their key and version
@@ -328,6 +393,8 @@ pub struct History {
     pub calls: Vec<(usize, &'static str, u64, Option<u64>)>,
     pub next_ver: std::collections::BTreeMap<u64, u64>,
     pub panics: Vec<String>,
+    /// User callbacks that ran while the calling thread held a cache lock (C16, see `lock_probe`).
+    pub lock_held: Vec<String>,
 }
 
 impl History {
@@ -345,9 +412,10 @@ struct Listener {
 
 impl EventListener for Listener {
     type Key = u64;
-    type Value = Vec<u8>;
+    type Value = HVal;
 
-    fn on_leave(&self, reason: Event, key: &u64, value: &Vec<u8>) {
+    fn on_leave(&self, reason: Event, key: &u64, value: &HVal) {
+        lock_probe("Listener");
         let ver = match decode_val(value) {
             Decoded::Ok { ver, .. } => ver,
             _ => 0,
@@ -599,6 +667,9 @@ impl World {
             }
             if cfg.admission == Admission::Reject {
                 engine = engine.with_admission_filter(StorageFilter::new().with_condition(RejectAll));
+            } else {
+                // Always admits; only probes the lock monitor.
+                engine = engine.with_admission_filter(StorageFilter::new().with_condition(ProbeFilter));
             }
             if !cfg.reinsert.is_empty() {
                 engine = engine.with_reinsertion_filter(StorageFilter::new().with_condition(Biased::new(cfg.reinsert.clone())));
@@ -617,7 +688,10 @@ impl World {
                 .with_hash_builder(VHash {
                     table: Arc::new(cfg.hash_table.clone()),
                 })
-                .with_weighter(|_, _| 1)
+                .with_weighter(|_, _| {
+                    lock_probe("Weighter");
+                    1
+                })
                 .storage()
                 .with_io_engine_config(Box::new(SimIoConfig { io }) as Box<dyn foyer::IoEngineConfig>);
             let builder = if cfg.noop_storage {
@@ -757,7 +831,7 @@ impl World {
         match *op {
             HOp::Ins { k, sz, loc } => {
                 let ver = self.hist.lock().unwrap().new_ver(k);
-                let val = mkval(k, ver, sz, false);
+                let val = HVal(mkval(k, ver, sz, false));
                 let e = cache.insert_with_properties(k, val, Self::props(loc));
                 drop(e);
                 let in_mem = cache.memory().contains(&k);
@@ -778,7 +852,7 @@ impl World {
             }
             HOp::SwIns { k, sz } => {
                 let ver = self.hist.lock().unwrap().new_ver(k);
-                let val = mkval(k, ver, sz, false);
+                let val = HVal(mkval(k, ver, sz, false));
                 let e = cache.storage_writer(k).insert(val);
                 drop(e);
                 let in_mem = cache.memory().contains(&k);
@@ -814,7 +888,7 @@ impl World {
                 for _ in 0..n {
                     let k = self.filler_next;
                     self.filler_next += 1;
-                    let e = cache.insert_with_properties(k, mkval(k, 1, 24, false), Self::props(Loc::InMem));
+                    let e = cache.insert_with_properties(k, HVal(mkval(k, 1, 24, false)), Self::props(Loc::InMem));
                     drop(e);
                 }
             }
@@ -953,7 +1027,7 @@ impl World {
                                     resp: None,
                                     epoch,
                                 });
-                                Ok::<Vec<u8>, anyhow::Error>(mkval(k, ver, sz, false))
+                                Ok::<HVal, anyhow::Error>(HVal(mkval(k, ver, sz, false)))
                             } else {
                                 Err(anyhow::anyhow!("origin failed"))
                             }
@@ -1277,6 +1351,7 @@ impl World {
             }
         }
         self.hist.lock().unwrap().panics.extend(sim::take_panics());
+        self.hist.lock().unwrap().lock_held.extend(lock_probe_take());
         self.reap_clients();
         self.steps += 1;
     }
@@ -1315,6 +1390,7 @@ impl World {
             break;
         }
         self.hist.lock().unwrap().panics.extend(sim::take_panics());
+        self.hist.lock().unwrap().lock_held.extend(lock_probe_take());
         self.reap_clients();
     }
 
@@ -1385,6 +1461,7 @@ pub fn run_program_with(
     hook: &mut dyn FnMut(&World),
 ) -> RunOut {
     sim::reset();
+    let _ = lock_probe_take();
     let mut w = World::new(cfg.clone());
     let mut trace = vec![];
     if let Err(e) = w.open() {
